@@ -30,7 +30,7 @@ REQUIRED_COUNTERS = {"quick": {"accepted": 20000, "float-sum-not-1": 300, "rejec
                                "shuffle-checked": 1000, "rows-tracked": 500000},
                      "thorough": {"accepted": 100000, "float-sum-not-1": 1000, "rejected-as-expected": 200, "tie-sizes": 3000, "determinism-checked": 50000,
                                   "shuffle-checked": 10000, "rows-tracked": 2000000}}
-SEEDS = {"quick": 2, "thorough": 8}
+SEEDS = {"quick": 3, "thorough": 8}
 
 
 def compositions(m, parts):
@@ -130,7 +130,8 @@ def judge(family, case, rec):
     nf = len(k)
     if float(np.sum(ratios)) != 1.0:
         rec.count("float-sum-not-1")
-    seeds = [None] + [util.derive_seed("C17", case["base"], tuple(sizes), m, tuple(k), i) % (2**32) for i in range(case["n_seeds"])]
+    seeds = [None, 0, 42][: 1 + case["n_seeds"]] + [util.derive_seed("C17", case["base"], tuple(sizes), m, tuple(k), i) % (2**32)
+                                                   for i in range(max(0, case["n_seeds"] - 1))]
     outs = {}
     for rs in seeds:
         sub = {"sizes": sizes, "m": m, "k": k, "d": d, "random_state": rs, "form": case["form"]}
@@ -215,9 +216,15 @@ def judge(family, case, rec):
         e = big[0]
         rec.count("shuffle-checked")
         seqs = []
+        labels = []
         for rs, folds in outs.items():
+            if rs is None:
+                continue        # the default seed is documented (42): it may coincide with an explicit 42
             seqs.append(np.concatenate([np.asarray(folds[i][e])[:, 0] for i in range(nf)]))
-        if all(np.array_equal(seqs[0], s) for s in seqs[1:]):
-            rec.violation("C17:seed-ignored", family, case, "environment %d (n=%d): all of %d different seeds give the same assignment" % (e, sizes[e], len(seqs)))
+            labels.append(rs)
+        same = [(labels[a], labels[b]) for a in range(len(seqs)) for b in range(a + 1, len(seqs)) if np.array_equal(seqs[a], seqs[b])]
+        if same:
+            rec.violation("C17:seed-ignored", family, case,
+                          "environment %d (n=%d): different seeds give the very same assignment of observations to folds: %s" % (e, sizes[e], same[:3]))
         if any(np.array_equal(s, np.sort(s)) for s in seqs):
             rec.violation("C17:not-shuffled", family, case, "environment %d (n=%d): folds are consecutive slices of the input order" % (e, sizes[e]))
